@@ -31,7 +31,7 @@ impl Property for C04 {
         "C04"
     }
     fn rule(&self) -> String {
-        "Cases: (LHS operand of any zoo type/length/provenance, RHS vector of any type/length/provenance or native integer, op in {&,|,^}, one of 6 operator forms) and (operand, ! owned|borrowed). Enumerated: all (n,a,m,b) with n,m<=3 (quick) / <=6 (thorough) for all 19x19 type pairings and 3 ops; all (n<=3/6,a) x integer lattice x 19 x 6 native types; every LHS length up to capacity (<=320) against an all-ones RHS of length n+1 / next word boundary / RHS capacity for all pairings; ! on all values n<=8 and every length with 3 value classes. Random: proptest. Oracle: per-bit Boolean function on bit lists (RHS zero-extended, cut at n) + observer battery. Non-trivial: result differs from a AND (RHS longer than LHS with a set bit at index >= n, or LHS longer than RHS with a set bit above m); for !: n not a multiple of the storage word and n>0. Distinct by hash of the whole case.".into()
+        "Cases: (LHS operand of any zoo type/length/provenance, RHS vector of any type/length/provenance or native integer, op in {&,|,^}, one of 6 operator forms) and (operand, ! owned|borrowed). Enumerated: all (n,a,m,b) with n,m<=4 (quick) / <=6 (thorough) for all 19x19 type pairings and 3 ops; all (n<=4/6,a) x integer lattice x 19 x 6 native types; every LHS length up to capacity (<=320) against an all-ones RHS of length n+1 / next word boundary / RHS capacity for all pairings; ! on all values n<=8 and every length with 3 value classes. Random: proptest. Oracle: per-bit Boolean function on bit lists (RHS zero-extended, cut at n) + observer battery. Non-trivial: result differs from a AND (RHS longer than LHS with a set bit at index >= n, or LHS longer than RHS with a set bit above m); for !: n not a multiple of the storage word and n>0. Distinct by hash of the whole case.".into()
     }
     fn random_cases(&self, tier: Tier) -> u64 {
         tier.pick(200000, 8000000)
@@ -44,7 +44,7 @@ impl Property for C04 {
         .boxed()
     }
     fn exhaustive_subspaces(&self, tier: Tier) -> Vec<String> {
-        let k = tier.pick(3, 6);
+        let k = tier.pick(4, 6);
         vec![
             format!("all values of both operands for all lengths n,m<={} x 19x19 type pairings x {{&,|,^}} (form rotates)", k),
             format!("all values for n<={} x integer lattice x 19 LHS types x 6 native RHS types x {{&,|,^}}", k),
@@ -52,7 +52,7 @@ impl Property for C04 {
         ]
     }
     fn enumerate(&self, tier: Tier, sh: &mut Shard, f: &mut dyn FnMut(C04Case) -> bool) {
-        let k = tier.pick(3, 6);
+        let k = tier.pick(4, 6);
         let mut rot = 0usize;
         // (i) complete small scope, vector RHS
         for lt in 0..NT {
@@ -65,10 +65,14 @@ impl Property for C04 {
                         for a in all_values(n) {
                             for b in all_values(m) {
                                 for op in LOGIC {
-                                    rot += 1;
-                                    let c = C04Case::Bin { a: Operand::canon(lt, a.clone()), b: Rhs::V(Operand::canon(rt, b.clone())), op, form: FORMS[rot % 6] };
-                                    if !f(c) {
-                                        return;
+                                    for pa in scope_provs(lt) {
+                                        for pb in scope_provs(rt) {
+                                            rot += 1;
+                                            let c = C04Case::Bin { a: Operand { ty: lt, bits: a.clone(), prov: pa.clone() }, b: Rhs::V(Operand { ty: rt, bits: b.clone(), prov: pb }), op, form: FORMS[rot % 6] };
+                                            if !f(c) {
+                                                return;
+                                            }
+                                        }
                                     }
                                 }
                             }
